@@ -113,9 +113,17 @@ func synthCrud(r *rng, idx int) *modSpec {
 			}
 		}
 		nc := 2 + r.intn(5)
-		for c := 0; c < nc; c++ {
+		visible := 0
+		for c := 0; c < nc || visible < 2; c++ { // at least two real columns beside the id (fewer is a recorded finding)
 			name := fmt.Sprintf("C%d", c)
-			switch r.intn(12) {
+			k := r.intn(12)
+			if c >= nc {
+				k = 11
+			}
+			if k > 2 {
+				visible++
+			}
+			switch k {
 			case 0:
 				fields = append(fields, fmt.Sprintf("%s string `gomacro-sql-guard:\"'fixed'\"`", name))
 			case 1:
@@ -462,7 +470,11 @@ func runC05(e *env) {
 		}
 		funs, scans, order, err := readCrud(gc.Text)
 		if err != nil {
-			e.m.fail(oracleFailure{What: "the generated CRUD file does not parse: " + err.Error(), Input: spec, Class: spec.Class})
+			cls := spec.Class
+			if strings.Contains(gc.Text, "`,, item.") || strings.Contains(strings.Join(strings.Fields(gc.Text), " "), "`, , item.") || strings.Contains(strings.Join(strings.Fields(gc.Text), " "), "`,, item.") {
+				cls = "table-with-only-an-id" // QueryRow(`...`, , item.Id): no column beside the id
+			}
+			e.m.fail(oracleFailure{What: "the generated CRUD file does not parse: " + err.Error(), Input: spec, Class: cls})
 			continue
 		}
 		var fitems []string
